@@ -92,6 +92,13 @@ Definition del_key (h : N) (e : list (N * tx)) : list (N * tx) :=
 (* batch.Put(hash, record) + Write: overwrites *)
 Definition put_exec (e : list (N * tx)) (t : tx) : list (N * tx) := (thash t, t) :: del_key (thash t) e.
 
+(* pool.evictedTxs: lru.Cache of txCacheSize entries, most recently added first. Add of a present key moves
+   it to the front; a new key beyond the capacity drops the oldest; Contains does not touch the order. *)
+Definition evict_cap : N := 1000.
+Definition lru_add (l : list N) (h : N) : list N :=
+  firstn (N.to_nat evict_cap) (h :: filter (fun x => negb (x =? h)) l).
+Definition lru_adds (l : list N) (hs : list N) : list N := fold_left lru_add hs l.
+
 (* TxPool.MarkExecuted with one receipt per transaction of [txs] (receipts[i].TxHash = txs[i].Hash) and
    the block's evicted hashes [ev]: executed records written, evicted hashes cached, all of them removed
    from received. *)
@@ -99,7 +106,7 @@ Definition mark_executed (s : pool) (txs : list tx) (ev : list N) : pool :=
   let gone := hashes txs ++ ev in
   mkPool (filter (fun t => negb (memN (thash t) gone)) (received s))
          (fold_left put_exec txs (executed s))
-         (ev ++ evicted s).
+         (lru_adds (evicted s) ev).
 
 (* TxPool.UnMarkExecuted(block): nothing at all for a block without transactions *)
 Definition unmark1 (lim : N) (s : pool) (t : tx) : pool :=
@@ -273,7 +280,7 @@ Definition needs_lock (o : op) : bool :=
 
 (* the two halves of MarkExecuted *)
 Definition mark_write (s : pool) (txs : list tx) (ev : list N) : pool :=
-  mkPool (received s) (fold_left put_exec txs (executed s)) (ev ++ evicted s).
+  mkPool (received s) (fold_left put_exec txs (executed s)) (lru_adds (evicted s) ev).
 Definition mark_remove (s : pool) (txs : list tx) (ev : list N) : pool :=
   mkPool (filter (fun t => negb (memN (thash t) (hashes txs ++ ev))) (received s)) (executed s) (evicted s).
 
@@ -302,6 +309,53 @@ Definition linit : lstate := mkL empty None.
 (* no MarkExecuted is between its record-write and its remove *)
 Definition mark_idle (s : lstate) : Prop :=
   match holder s with Some (_, KMark _ _) => False | _ => True end.
+
+(* ---------- the chain lock (middleware.LockBlockchain, an RW lock) above the pool lock ---------- *)
+(* Every caller of MarkExecuted / UnMarkExecuted in the node holds the chain WRITE lock for the whole call
+   (blockChain.AddBlockOnChain, blockChainFork.triggerOnChain -> addBlockOnChain / insertBlock /
+   removeFromCommonAncestor -> remove; ensureChainConsistency runs single-threaded at start-up), and the
+   only caller of PackForCast (blockChain.CastBlock) holds the chain READ lock.  Lock order chain -> pool.
+     CW tid / CWU tid : acquire / release the write lock (release only after the pool method returned)
+     CR tid / CRU tid : acquire / release a read lock
+     CPack tid        : PackForCast by a read-lock holder (an observation point; no state change)
+     CL o             : a pool-level step; the first step of a MarkExecuted / UnMarkExecuted is taken only
+                        by the write-lock holder, a whole-method LOp (OMark / OUnmark) stands for
+                        lock-call-unlock and needs the chain lock free. *)
+Inductive clop := CW (tid : N) | CWU (tid : N) | CR (tid : N) | CRU (tid : N) | CPack (tid : N) | CL (o : lop).
+
+Record cstate := mkCS { ls : lstate; cw : option N; cr : list N }.
+
+Definition holder_chain (h : option (N * task)) : option N :=
+  match h with
+  | Some (tid, KMark _ _) | Some (tid, KUnmark _) => Some tid
+  | _ => None
+  end.
+
+Definition chain_ok (s : cstate) (o : lop) : bool :=
+  match o with
+  | LMarkW tid _ _ | LUnmarkB tid _ _ => match cw s with Some w => w =? tid | None => false end
+  | LOp (OMark _ _) | LOp (OUnmark _ _) => match cw s, cr s with None, [] => true | _, _ => false end
+  | _ => true
+  end.
+
+Definition cstep (lim : N) (s : cstate) (o : clop) : cstate :=
+  match o with
+  | CW tid => match cw s, cr s with None, [] => mkCS (ls s) (Some tid) [] | _, _ => s end
+  | CWU tid =>
+    match cw s with
+    | Some w =>
+      if (w =? tid) && negb (match holder_chain (holder (ls s)) with Some h => h =? tid | None => false end)
+      then mkCS (ls s) None (cr s) else s
+    | None => s
+    end
+  | CR tid => match cw s with None => mkCS (ls s) None (tid :: cr s) | Some _ => s end
+  | CRU tid => mkCS (ls s) (cw s) (remove N.eq_dec tid (cr s))
+  | CPack _ => s
+  | CL o => if chain_ok s o then mkCS (lstep lim (ls s) o) (cw s) (cr s) else s
+  end.
+
+Definition crun (lim : N) (s : cstate) (sched : list clop) : cstate := fold_left (cstep lim) sched s.
+Definition cinit : cstate := mkCS linit None [].
 
 (* the same steps WITHOUT the lock discipline (the code before the fix) are [fstep] above. *)
 
@@ -335,3 +389,60 @@ Definition trun (lim : N) (s : tpool) (ops : list top) : tpool := fold_left (tst
 (* the untimed operation a timed step amounts to *)
 Definition erase1 (s : tpool) (o : top) : op :=
   match o with TOp o => o | TTick => OExpire (tick_expired (rings s)) end.
+
+(* ---------- MarkExecuted's calling convention: receipts vs block transactions ---------- *)
+(* findTxInList(txs, receipt.TxHash, i): txs[i] if its hash matches, else the first transaction of the
+   block with that hash, else nil -- and a nil transaction makes MarkExecuted panic (refreshGateNonce
+   dereferences it).  [resolve_from] = the transactions stored for the receipts, None = panic. *)
+Definition find_tx (txs : list tx) (h : N) (i : nat) : option tx :=
+  match nth_error txs i with
+  | Some t => if thash t =? h then Some t else find (fun t => thash t =? h) txs
+  | None => find (fun t => thash t =? h) txs
+  end.
+
+Fixpoint resolve_from (i : nat) (rc : list N) (txs : list tx) : option (list tx) :=
+  match rc with
+  | [] => Some []
+  | h :: r =>
+    match find_tx txs h i, resolve_from (S i) r txs with
+    | Some t, Some l => Some (t :: l)
+    | _, _ => None
+    end
+  end.
+
+(* MarkExecuted(header, receipts with hashes [rc], block transactions [txs], evicted [ev]); transactions of
+   the block without a receipt are neither recorded nor removed from pending *)
+Definition mark_call (s : pool) (rc : list N) (txs : list tx) (ev : list N) : option pool :=
+  match resolve_from 0 rc txs with
+  | Some l => Some (mark_executed s l ev)
+  | None => None
+  end.
+
+(* ---------- TxPool.Clear ---------- *)
+(* Clear (chain lock + pool lock held) replaces the pending container by an empty one, resets the batch and
+   RE-OPENS the executed store as db.NewDatabase("tx") -- a prefixed view of the node's shared LevelDB,
+   which is NOT the dedicated LevelDB "storage/tx" that newTransactionPool opened.  pool.batch still
+   belongs to the old store.  So after the first Clear: lookups / existence checks / UnMarkExecuted's
+   deletes go to the new store (contents [ns] at that moment; nothing ever writes to it), and
+   MarkExecuted's records keep going to the old one, where nobody looks.  The evicted cache is untouched. *)
+Record xpool := mkX { xp : pool; detached : bool; oldstore : list (N * tx) }.
+
+Inductive xop := XOp (o : op) | XClear (ns : list (N * tx)).
+
+(* MarkExecuted once the stores are split: pending and evicted cache as usual, visible executed unchanged *)
+Definition mark_detached (s : pool) (txs : list tx) (ev : list N) : pool :=
+  mkPool (received (mark_executed s txs ev)) (executed s) (evicted (mark_executed s txs ev)).
+
+Definition xstep (lim : N) (s : xpool) (o : xop) : xpool :=
+  match o with
+  | XClear ns =>
+    if detached s then mkX (mkPool [] (executed (xp s)) (evicted (xp s))) true (oldstore s)
+    else mkX (mkPool [] ns (evicted (xp s))) true (executed (xp s))
+  | XOp (OMark txs ev) =>
+    if detached s then mkX (mark_detached (xp s) txs ev) true (fold_left put_exec txs (oldstore s))
+    else mkX (mark_executed (xp s) txs ev) false (oldstore s)
+  | XOp o => mkX (step lim (xp s) o) (detached s) (oldstore s)
+  end.
+
+Definition xrun (lim : N) (s : xpool) (ops : list xop) : xpool := fold_left (xstep lim) ops s.
+Definition xinit : xpool := mkX empty false [].
